@@ -152,7 +152,7 @@ def sensitivity(argv):
             else:
                 clean_on_orig = None
             caught = p.returncode == 1 and bool(viol)
-            results.append({"mutant": name, "property": prop, "exit": p.returncode, "caught": caught,
+            results.append({"mutant": name, "property": prop, "expect": expect, "exit": p.returncode, "caught": caught,
                             "replay_reproduces": ok_replay, "replay_clean_on_unchanged_tree": clean_on_orig,
                             "wall_s": round(time.time() - t1, 1),
                             "first": (viol[0] if viol else out.strip().splitlines()[-1:] or [""]),
@@ -161,7 +161,7 @@ def sensitivity(argv):
             sys.stdout.flush()
         finally:
             shutil.rmtree(scratch, ignore_errors=True)
-    missed = [r for r in results if not r["caught"]]
+    missed = [r for r in results if not r["caught"] and r.get("expect", "caught") == "caught"]
     flaky = [r for r in results if r["caught"] and not (r["replay_reproduces"] and r["replay_clean_on_unchanged_tree"])]
     print(f"sensitivity: {len(results)} mutants, {len(results) - len(missed)} caught, {len(missed)} missed, "
           f"{len(flaky)} caught without a clean replay, {time.time() - t0:.0f}s")
